@@ -84,6 +84,7 @@ def mc_defs(scn):
         "MC_Weights": tla_value(set(scn["weights"])),
         "MC_Filter": tla_value(filter_record(scn.get("filter"))),
         "MC_YVals": tla_value(set(scn["yvals"])),
+        "MC_Batches": tla_value(set(scn.get("batches") or (1,))),
     }
 
 
@@ -93,6 +94,7 @@ def mc_cfg(scn, family, invariants=("EmitInv",), extra_constants=(), sim=False):
         "  Dims <- MC_Dims",
         "  Weights <- MC_Weights",
         "  YVals <- MC_YVals",
+        "  Batches <- MC_Batches",
         "  Configs <- MC_Configs",
         "  MaxResp = %d" % scn["max_resp"],
         "  Weighted = %s" % ("TRUE" if scn["weighted"] else "FALSE"),
